@@ -28,6 +28,7 @@ func c05CLI(c *Ctx, run *ev.Run) {
 	defer os.RemoveAll(dir)
 	n := c.Pick(3, 16)
 	for i := 0; i < n; i++ {
+		waitForPorts(run, 16000, 90*time.Second)
 		workers := []int{16, 64, 4, 256}[i%4]
 		srv, err := newWireServer()
 		if err != nil {
